@@ -303,10 +303,12 @@ def stepBoth (σ : Store) (back : Bool) (g : Gen) : BothOut :=
         { g := { g with ctl := .rootEnter .one }, ev := some (g.root, false) }
       else { g := { g with stack := items back (σ.kids x), ctl := .running } }
   | .rootEnter r =>
-    if r == .no then { g := { g with ctl := .done } }
-    else match σ.a g.root with
-      | none => { g := { g with ctl := .done } }
-      | some x =>
+    -- `send(False)` on the root's enter event skips the children; the root is still left (empty stack -> root-leave yield)
+    match σ.a g.root with
+    | none => { g := { g with ctl := .done } }
+    | some x =>
+      if r == .no then { g := { g with stack := [], ctl := .running } }
+      else
         { g := { g with stack := items back (σ.kids x), ctl := .running,
                         recurse := if r == .yes then true else g.recurse } }
   | .running =>
